@@ -434,7 +434,7 @@ def coq_sx(x):
 
 def extraction_agrees(ctx, samples, tag):
     """samples: [(command tuple as given to Pqref.call, parsed output)].  Generates one closed Example per sample,
-    `Cmd.run input = output` proved by vm_compute in coqc: the extracted OCaml program and the Coq kernel's own
+    `Cmd.pqref_main input = output` proved by vm_compute in coqc: the extracted OCaml program and the Coq kernel's own
     evaluation of the same Gallina agree on these inputs (a check of extraction + driver, not of the model)."""
     from harness import common as C
     if not samples:
@@ -444,7 +444,7 @@ def extraction_agrees(ctx, samples, tag):
         f.write("From Coq Require Import NArith ZArith List String.\nFrom Pq Require Import Extract.Sx Extract.Cmd.\n"
                 "Import ListNotations.\nLocal Open Scope N_scope.\n")
         for i, (cmd, out) in enumerate(samples):
-            f.write("Example extract_agrees_%s_%d : Cmd.run %s = %s.\nProof. vm_compute. reflexivity. Qed.\n" % (
+            f.write("Example extract_agrees_%s_%d : Cmd.pqref_main %s = %s.\nProof. vm_compute. reflexivity. Qed.\n" % (
                 tag, i, coq_sx(list(cmd)), coq_sx(out)))
     ctx.coq_file(path)
 
